@@ -4,10 +4,22 @@ pub fn allocate<T>(num: usize) -> *mut T {
     let vec = Vec::<T>::with_capacity(num);
     let rptr = vec.as_ptr();
     mem::forget(vec);
+    #[cfg(multiqueue2_verif)]
+    crate::verif_hooks::note_alloc(
+        rptr as usize,
+        num * mem::size_of::<T>(),
+        std::any::type_name::<T>(),
+    );
     rptr as *mut T
 }
 
 pub fn deallocate<T>(tofree: *mut T, num: usize) {
+    #[cfg(multiqueue2_verif)]
+    crate::verif_hooks::note_dealloc(
+        tofree as usize,
+        num * mem::size_of::<T>(),
+        std::any::type_name::<T>(),
+    );
     unsafe {
         Vec::from_raw_parts(tofree, 0, num);
     }
